@@ -176,6 +176,7 @@ type ReplayFile struct {
 	Scenario  string     `json:"scenario"`
 	Note      string     `json:"note,omitempty"`
 	Tape      []uint64   `json:"tape"`
+	SideTape  []uint64   `json:"side_tape,omitempty"` // configuration knobs (Tape.Side); absent = all defaults
 	Events    []string   `json:"events,omitempty"`
 	Seed      uint64     `json:"seed"`
 	OrigLen   int        `json:"orig_tape_len"`
@@ -369,7 +370,7 @@ func Main(t *testing.T, property string, scs []Scenario) {
 		if rf.FromSeed {
 			tp = NewTape(rf.Seed)
 		} else {
-			tp = ReplayTape(rf.Tape)
+			tp = ReplayTape(rf.Tape).WithSide(rf.SideTape)
 		}
 		e := execOne(t, sc, rf.Seed, tp, true)
 		setDeadline(0, "")
@@ -434,21 +435,23 @@ func Main(t *testing.T, property string, scs []Scenario) {
 					continue
 				}
 				seenClass[e.viol.Class] = true
-				tape, nruns := shrink(t, sc, seed, tp.Recorded(), e.viol.Class, shrinkBudget, runTimeout)
+				side := tp.SideRecorded()
+				tape, side, nruns := shrink(t, sc, seed, tp.Recorded(), side, e.viol.Class, shrinkBudget, runTimeout)
 				// final verbose run for the event log
 				setDeadline(runTimeout, "final shrink run")
-				fe := execOne(t, sc, seed, ReplayTape(tape), true)
+				fe := execOne(t, sc, seed, ReplayTape(tape).WithSide(side), true)
 				setDeadline(0, "")
 				v := fe.viol
 				if v == nil {
 					v = e.viol
 					tape = tp.Recorded()
+					side = tp.SideRecorded()
 				}
 				if tape == nil {
 					tape = []uint64{}
 				}
 				rf := &ReplayFile{
-					Property: property, Scenario: sc.Name, Seed: seed, Tape: tape, OrigLen: tp.Pos(),
+					Property: property, Scenario: sc.Name, Seed: seed, Tape: tape, SideTape: side, OrigLen: tp.Pos(),
 					Violation: v, Events: fe.events,
 				}
 				name := filepath.Join(replDir, fmt.Sprintf("%s-%s-%d.json", property, sc.Name, seed))
@@ -468,7 +471,7 @@ func Main(t *testing.T, property string, scs []Scenario) {
 }
 
 // shrink minimises a failing tape by delta debugging while the same violation class persists.
-func shrink(t *testing.T, sc *Scenario, seed uint64, tape []uint64, class string, budget, runTimeout time.Duration) ([]uint64, int) {
+func shrink(t *testing.T, sc *Scenario, seed uint64, tape, side []uint64, class string, budget, runTimeout time.Duration) ([]uint64, []uint64, int) {
 	begin := time.Now()
 	runs := 0
 	fails := func(cand []uint64) bool {
@@ -477,9 +480,27 @@ func shrink(t *testing.T, sc *Scenario, seed uint64, tape []uint64, class string
 		}
 		runs++
 		setDeadline(runTimeout, "shrinking")
-		e := execOne(t, sc, seed, ReplayTape(cand), false)
+		e := execOne(t, sc, seed, ReplayTape(cand).WithSide(side), false)
 		setDeadline(0, "")
 		return e.viol != nil && e.viol.Class == class
+	}
+	// first: does it fail with every configuration knob at its default (empty side tape)? then single knobs
+	if len(side) > 0 {
+		keep := side
+		side = nil
+		if !fails(tape) {
+			side = append([]uint64(nil), keep...)
+			for i := range side {
+				if side[i] == 0 {
+					continue
+				}
+				old := side[i]
+				side[i] = 0
+				if !fails(tape) {
+					side[i] = old
+				}
+			}
+		}
 	}
 	cur := append([]uint64(nil), tape...)
 	// drop trailing zeros is always valid (exhausted tape reads zero)
@@ -560,7 +581,7 @@ func shrink(t *testing.T, sc *Scenario, seed uint64, tape []uint64, class string
 		}
 		cur = trim(cur)
 	}
-	return cur, runs
+	return cur, side, runs
 }
 
 // SortedKeys returns the sorted keys of a map (helper to keep event logs free of map order).
